@@ -460,7 +460,7 @@ pub fn minimise(env: &Env, plan: &Plan, v0: &Violation, max_execs: u64, max_time
             let mut changed = false;
             for op in p.ops.iter_mut() {
                 if let Op::Spawn { cfg, .. } | Op::Update { cfg, .. } = op {
-                    let simpler = matches!((cfg.data, target), (DataKind::Full, _) | (DataKind::Small, DataKind::None));
+                    let simpler = matches!((cfg.data, target), (DataKind::Full, _) | (DataKind::Big, _) | (DataKind::Small, DataKind::None));
                     if simpler {
                         cfg.data = target;
                         changed = true;
